@@ -752,4 +752,175 @@ Section Roundtrip.
         destruct Hin as [H|H]; [inversion H; subst; congruence | auto].
       + auto.
   Qed.
+
+  Lemma list_eqb_refl : forall (l : list rvalue),
+    Forall (fun x => wf T x = true -> req x x = true) l -> forallb (wf T) l = true ->
+    list_eqb req l l = true.
+  Proof.
+    induction 1 as [|x r Hx Hr IH]; simpl; intros Hw; auto.
+    apply andb_true_iff in Hw. destruct Hw as [H1 H2]. rewrite Hx, IH; auto.
+  Qed.
+
+  Lemma sub_map_refl : forall (l : list (string * rvalue)),
+    Forall (fun kv => wf T (snd kv) = true -> req (snd kv) (snd kv) = true) l ->
+    forallb (fun kv => wf T (snd kv)) l = true -> nodup_keys l = true ->
+    sub_map req l l = true.
+  Proof.
+    intros l HF Hw Hn. unfold sub_map. apply forallb_forall. intros [k x] Hin.
+    rewrite (lookup_self_in _ k x l Hn Hin).
+    rewrite Forall_forall in HF. rewrite forallb_forall in Hw.
+    apply (HF (k, x) Hin). apply (Hw (k, x) Hin).
+  Qed.
+
+  Lemma list_str_eqb_refl : forall l : list string, list_eqb String.eqb l l = true.
+  Proof. induction l; simpl; auto. rewrite String.eqb_refl. auto. Qed.
+
+  Lemma req_refl_wf : forall r, wf T r = true -> req r r = true.
+  Proof.
+    induction r using rvalue_ind'; simpl; intros Hw; auto;
+      repeat rewrite Z.eqb_refl; repeat rewrite N.eqb_refl; repeat rewrite String.eqb_refl;
+        repeat rewrite Nat.eqb_refl; simpl; auto.
+    - apply andb_true_iff in Hw. destruct Hw as [_ Hw]. apply list_eqb_refl; auto.
+    - apply andb_true_iff in Hw. destruct Hw as [Hw Hn]. apply andb_true_iff in Hw. destruct Hw as [_ Hw].
+      apply sub_map_refl; auto.
+    - destruct p; simpl; auto. apply list_str_eqb_refl.
+    - apply andb_true_iff in Hw. destruct Hw as [Hw Hn]. apply andb_true_iff in Hw. destruct Hw as [_ Hw].
+      apply sub_map_refl; auto.
+  Qed.
+
+  (* C09: serialise, then decode: a structurally equal value *)
+  Theorem json_roundtrip : forall v, tree_value T v = true -> finite_floats v = true ->
+    exists j v', to_json T v = Some j /\ of_json T j = Some v' /\ equal T v v'.
+  Proof.
+    intros v Ht Hf. destruct (json_roundtrip_strong v Ht Hf) as (l & E1 & E2).
+    exists (JObj l), (embed T v). repeat split; auto.
+    unfold equal. apply req_refl_wf. eapply of_json_wf; eauto.
+  Qed.
+
+  (* the same for a whole variable map (ValueMap.ToJSON / UnmarshalJSON) *)
+  Theorem json_map_roundtrip : forall (m : list (string * value)),
+    forallb (fun kv => tree_value T (snd kv)) m = true -> nodup_keys m = true ->
+    forallb (fun kv => finite_floats (snd kv)) m = true ->
+    exists j, to_json_map T m = Some j /\
+              of_json_map T j = Some (map (fun kv => (fst kv, embed T (snd kv))) m).
+  Proof.
+    intros m Ht Hn Hf.
+    assert (HF : Forall (fun kv => rt (snd kv)) m).
+    { apply Forall_forall. intros kv _. apply json_roundtrip_strong. }
+    destruct (entries_rt m HF Ht Hf) as (js & E1 & E2).
+    unfold to_json_map. rewrite E1. eexists. split; [reflexivity|].
+    unfold of_json_map. rewrite annot_obj. apply dec_map_rt; auto.
+  Qed.
+
+  (* non-finite floats anywhere in the tree: ToJSON reports an error *)
+  Definition has_nonfinite (v : value) : bool := negb (finite_floats v).
+
+  Lemma map_opt_none : forall A B (f : A -> option B) l x, In x l -> f x = None -> map_opt f l = None.
+  Proof.
+    induction l as [|y r IH]; simpl; intros x Hin Hx; [tauto|].
+    destruct Hin as [-> | Hin]; [rewrite Hx; reflexivity|].
+    destruct (f y); auto. rewrite (IH x Hin Hx). reflexivity.
+  Qed.
+
+  Theorem nonfinite_is_error : forall v, finite_floats v = false -> to_json T v = None.
+  Proof.
+    induction v using value_ind'; simpl; intros Hf; try discriminate.
+    - rewrite Hf. reflexivity.
+    - assert (Hex : exists x, In x l /\ finite_floats x = false).
+      { clear H. induction l as [|x r IH]; simpl in Hf; try discriminate.
+        apply andb_false_iff in Hf. destruct Hf as [Hf|Hf].
+        - exists x. split; [left; reflexivity | auto].
+        - destruct (IH Hf) as (y & Hy & Hy2). exists y. split; [right; auto | auto]. }
+      destruct Hex as (x & Hin & Hx). rewrite Forall_forall in H.
+      rewrite (map_opt_none _ _ (to_json T) l x Hin (H x Hin Hx)). reflexivity.
+    - assert (Hex : exists kv, In kv l /\ finite_floats (snd kv) = false).
+      { clear H. induction l as [|x r IH]; simpl in Hf; try discriminate.
+        apply andb_false_iff in Hf. destruct Hf as [Hf|Hf].
+        - exists x. split; [left; reflexivity | auto].
+        - destruct (IH Hf) as (y & Hy & Hy2). exists y. split; [right; auto | auto]. }
+      destruct Hex as ([k x] & Hin & Hx). rewrite Forall_forall in H.
+      erewrite map_opt_none; [reflexivity | exact Hin |].
+      simpl in *. rewrite (H (k, x) Hin Hx). reflexivity.
+    - assert (Hex : exists kv, In kv l /\ finite_floats (snd kv) = false).
+      { clear H. induction l as [|x r IH]; simpl in Hf; try discriminate.
+        apply andb_false_iff in Hf. destruct Hf as [Hf|Hf].
+        - exists x. split; [left; reflexivity | auto].
+        - destruct (IH Hf) as (y & Hy & Hy2). exists y. split; [right; auto | auto]. }
+      destruct Hex as ([k x] & Hin & Hx). rewrite Forall_forall in H.
+      erewrite map_opt_none; [reflexivity | exact Hin |].
+      simpl in *. rewrite (H (k, x) Hin Hx). reflexivity.
+  Qed.
+
+  (* ---------------------------------------------------------------- C10: observers *)
+  Definition notrap {A} (o : outcome A) : Prop := match o with Trap => False | Done _ => True end.
+
+  Lemma kind_tag_inj : forall k1 k2, kind_tag T k1 = kind_tag T k2 -> k1 = k2.
+  Proof.
+    intros k1 k2 H. pose proof (dispatch_kind_tag k1) as H1. pose proof (dispatch_kind_tag k2) as H2.
+    rewrite H in H1. rewrite H1 in H2. inversion H2; auto.
+  Qed.
+
+  (* the kind of a well-formed value's constructor, and its tag *)
+  Definition ctor_kind (r : rvalue) : option kind :=
+    match r with
+    | RNil => None | RNone _ => Some KNull | RInt _ _ => Some KInt | RFloat _ _ => Some KFloat
+    | RStr _ _ => Some KStr | RArr _ _ => Some KArray | RDict _ _ => Some KDict
+    | RFunc _ _ _ _ => Some KFunc | RComputed _ _ _ => Some KComputed
+    | RNative _ _ => Some KNative | RNObj _ _ => Some KNObj
+    end.
+
+  Lemma wf_tag : forall r, wf T r = true ->
+    exists k, ctor_kind r = Some k /\ tag_of r = Some (kind_tag T k).
+  Proof.
+    destruct r; simpl; intros H; try discriminate;
+      try (destruct attrs); repeat (apply andb_true_iff in H; destruct H as [H ?]);
+        apply Z.eqb_eq in H; subst; eexists; split; reflexivity.
+  Qed.
+
+  Lemma all_unit_ok : forall A (f : A -> outcome unit) l,
+    Forall (fun x => notrap (f x)) l -> notrap (all_unit f l).
+  Proof.
+    induction 1 as [|x r Hx Hr IH]; simpl; auto.
+    destruct (f x); simpl in *; auto.
+  Qed.
+
+  Lemma all_json_ok : forall A (f : A -> outcome jres) l,
+    Forall (fun x => notrap (f x)) l -> notrap (all_json f l).
+  Proof.
+    induction 1 as [|x r Hx Hr IH]; simpl; auto.
+    destruct (f x) as [[|]|]; simpl in *; auto.
+  Qed.
+
+  Lemma wf_to_string : forall r, wf T r = true -> notrap (r_to_string T r).
+  Proof.
+    induction r using rvalue_ind'; intros Hw; destruct (wf_tag _ Hw) as (k & Hk & Ht);
+      simpl in Hk; inversion Hk; subst; unfold r_to_string; fold r_to_string; rewrite Ht;
+        rewrite dispatch_kind_tag; simpl; auto.
+    - simpl in Hw. apply andb_true_iff in Hw. destruct Hw as [_ Hw].
+      apply all_unit_ok. rewrite Forall_forall in *. rewrite forallb_forall in Hw. auto.
+    - simpl in Hw. apply andb_true_iff in Hw. destruct Hw as [Hw _]. apply andb_true_iff in Hw. destruct Hw as [_ Hw].
+      apply all_unit_ok. rewrite Forall_forall in *. rewrite forallb_forall in Hw.
+      intros [k x] Hin. apply (H (k, x) Hin). apply (Hw (k, x) Hin).
+  Qed.
+
+  Lemma wf_to_json : forall r, wf T r = true -> notrap (r_to_json T r).
+  Proof.
+    induction r using rvalue_ind'; intros Hw; destruct (wf_tag _ Hw) as (k & Hk & Ht);
+      simpl in Hk; inversion Hk; subst; unfold r_to_json; fold r_to_json; rewrite Ht;
+        rewrite dispatch_kind_tag; simpl; auto.
+    - simpl in Hw. apply andb_true_iff in Hw. destruct Hw as [_ Hw].
+      apply all_json_ok. rewrite Forall_forall in *. rewrite forallb_forall in Hw. auto.
+    - simpl in Hw. apply andb_true_iff in Hw. destruct Hw as [Hw _]. apply andb_true_iff in Hw. destruct Hw as [_ Hw].
+      apply all_json_ok. rewrite Forall_forall in *. rewrite forallb_forall in Hw.
+      intros [k x] Hin. apply (H (k, x) Hin). apply (Hw (k, x) Hin).
+    - simpl in Hw. apply andb_true_iff in Hw. destruct Hw as [Hw _]. apply andb_true_iff in Hw. destruct Hw as [_ Hw].
+      apply all_json_ok. rewrite Forall_forall in *. rewrite forallb_forall in Hw.
+      intros [k x] Hin. apply (H (k, x) Hin). apply (Hw (k, x) Hin).
+  Qed.
+
+  Lemma wf_truthy : forall r, wf T r = true -> notrap (r_truthy T r).
+  Proof.
+    intros r Hw. destruct (wf_tag _ Hw) as (k & Hk & Ht). unfold r_truthy. rewrite Ht, dispatch_kind_tag.
+    destruct r; simpl in Hk; inversion Hk; subst; simpl; auto.
+  Qed.
 End Roundtrip.
